@@ -291,16 +291,24 @@ func runCase(r *hv.Rand, prop, class string, idx int) {
 // Run is the main of both drivers.
 func Run(prop string) {
 	defer hv.Flush()
+	defer func() {
+		m := map[string]interface{}{}
+		for k, v := range feedStats {
+			m[k] = fmt.Sprintf("nil=%d err=%d panic=%d", v[0], v[1], v[2])
+		}
+		hv.Info(map[string]interface{}{"datagrams_fed_by_kind": m})
+	}()
 	quiet()
 	r := hv.NewRand(hv.Seed() ^ 0xC03)
 	idx := 0
 	if prop == "C03" {
 		regressions(r)
+		endToEnd(r)
 		bigWrites(r)
 		readPacketCases(r)
 		concurrentWriters(r)
 		order := []string{"faithful", "dup-reorder", "bitflip", "reflect-cross", "control", "mixed"}
-		n := hv.Scale(900, 12000)
+		n := hv.Scale(600, 12000)
 		for k := 0; k < n; k++ {
 			runCase(r, prop, order[k%len(order)], idx)
 			idx++
@@ -308,7 +316,7 @@ func Run(prop string) {
 	} else {
 		r = hv.NewRand(hv.Seed() ^ 0xC15)
 		order := []string{"roam", "roam", "mixed", "control", "dup-reorder"}
-		n := hv.Scale(600, 8000)
+		n := hv.Scale(400, 8000)
 		for k := 0; k < n; k++ {
 			runCase(r, prop, order[k%len(order)], idx)
 			idx++
